@@ -1,6 +1,7 @@
 /-
 C11 — Python ranges and python_version markers convert into each other exactly.
-Property theorems only (helper lemmas in Proofs/PyConvText.lean, PyConvMarker.lean, PyConvSem.lean).
+Property theorems only (helper lemmas in Proofs/PyConvText.lean, PyConvMarker.lean, PyConvSem.lean,
+PyConvRange.lean, PyConvNorm.lean).
 
 Vocabulary.  `EnvPy E X Y Z`: the environment `E` has `python_version = "X.Y"` and
 `python_full_version = "X.Y.Z"` (all of `X Y Z : Nat`, unbounded); `pyV X Y Z` is the version `X.Y.Z`.
@@ -9,14 +10,15 @@ X.*,==` produce from canonical input).  `PyDom rc`: a range with such bounds (no
 single such version of precision 3.  `refEval E txt` is the PEP 508 reference value (`Spec.Pep508.evalSyn`
 after the grammar recogniser `parseText`) of a marker text, the empty text being "no marker".
 -/
-import PoetryVerif.Proofs.PyConvSem
+import PoetryVerif.Proofs.PyConvNorm
 import PoetryVerif.Proofs.VRangeOps
+import PoetryVerif.Proofs.MarkerProj
 
 set_option linter.unusedSimpArgs false
 set_option linter.unusedVariables false
 
 namespace Poetry.C11
-open Poetry Poetry.Marker Poetry.Spec.Pep508 Poetry.Version
+open Poetry Poetry.Marker Poetry.Spec.Pep508 Poetry.Version Poetry.VParser
 
 /-- reference value of a marker text (the empty text is the absent marker) -/
 def refEval (E : Env) (txt : String) : Option Bool :=
@@ -133,5 +135,165 @@ theorem createNested_defined (name : String) (c : VC) :
       by simp [createNestedMarker, VC.isAny]⟩
 
 example : createNestedMarker "python_version" .empty = .error .assertion := rfl
+
+/-- **the listed range operators land in the domain**: for a canonically spelt version `V` of 1–3 components
+the parser's result for `>=V`, `>V`, `<=V`, `<V`, `^V`, `~V`, `~=V` (and `==V` for three components) is one
+range constraint in `PyDom` — in both parser modes (`m`).  The wildcard forms `V.*`, `!=V.*` are outside: in
+`parse_constraint` their bounds are dev-releases (`>=3.8.dev0,<3.9.dev0`), literals the formalised reference
+(`Spec.Pep508`, final-release literals) does not cover; they are compared by the correspondence only. -/
+theorem listed_operators_in_domain (a : Nat) (r : List Nat) (m : Bool) (h3 : (a :: r).length ≤ 3) :
+    (∃ rc, parseSingle ('>' :: '=' :: relChars (a :: r)) m = .ok (.single rc) ∧ PyDom rc = true) ∧
+    (∃ rc, parseSingle ('>' :: relChars (a :: r)) m = .ok (.single rc) ∧ PyDom rc = true) ∧
+    (∃ rc, parseSingle ('<' :: '=' :: relChars (a :: r)) m = .ok (.single rc) ∧ PyDom rc = true) ∧
+    (∃ rc, parseSingle ('<' :: relChars (a :: r)) m = .ok (.single rc) ∧ PyDom rc = true) ∧
+    (∃ rc, parseSingle ('^' :: relChars (a :: r)) m = .ok (.single rc) ∧ PyDom rc = true) ∧
+    (∃ rc, parseSingle ('~' :: relChars (a :: r)) m = .ok (.single rc) ∧ PyDom rc = true) ∧
+    (∃ rc, parseSingle ('~' :: '=' :: relChars (a :: r)) m = .ok (.single rc) ∧ PyDom rc = true) :=
+  ⟨dom_ge a r m h3, dom_gt a r m h3, dom_le a r m h3, dom_lt a r m h3, dom_caret a r m h3, dom_tilde a r m h3,
+    dom_compat a r m h3⟩
+
+theorem eq3_in_domain (a b c : Nat) (m : Bool) :
+    ∃ rc, parseSingle ('=' :: '=' :: relChars [a, b, c]) m = .ok (.single rc) ∧ PyDom rc = true :=
+  dom_eq3 a b c m
+
+/-- `relChars` is the text `str()` prints: `relChars [3, 10] = "3.10"` -/
+example : String.ofList (relChars [3, 10]) = "3.10" ∧ (relText [3, 8, 1]).toList = relChars [3, 8, 1] :=
+  ⟨by decide, relText_toList _⟩
+
+/-! ## marker → range -/
+
+/-- **one `(op, value)` pair of `normalize_python_version_markers`**: for every comparison operator
+(`==, !=, <, <=, >, >=, ~=`) and a literal that `python_version` (two components) or `python_full_version`
+(three components) is compared with, the clause printed for the pair (`==a.b ↦ ~a.b`, `!=a.b ↦ !=a.b.*`,
+`<=a.b ↦ <a.(b+1)`, `>a.b ↦ >=a.(b+1)`, the others unchanged) is read by the constraint parser as a constraint
+admitting `X.Y.Z` exactly when the item holds on the environment of `X.Y.Z` (reference value). -/
+theorem normalize_pair_exact (E : Env) (X Y Z : Nat) (hE : EnvPy E X Y Z) (n op : String) (lit : List Nat)
+    (hop : RelOp op) (hi : PyItem n lit) :
+    ∃ item bb, normalizePyPair op (relText lit) = .ok item ∧ ClauseMeans item X Y Z bb ∧
+      evalItem n op (relText lit) false E = some bb :=
+  normPair_exact E X Y Z hE n op lit hop hi
+
+example : RelOp "<=" ∧ PyItem "python_version" [3, 8] ∧ normalizePyPair "<=" (relText [3, 8]) = .ok "<3.9" ∧
+    normalizePyPair "==" "3.8" = .ok "~3.8" ∧ normalizePyPair "!=" "3.8" = .ok "!=3.8.*" :=
+  ⟨by simp [RelOp], .short 3 8, by decide, by decide, by decide⟩
+
+/-- **a one-component literal is outside the domain, and the conversion is then not even an upper bound**:
+`python_version <= "3"` holds on interpreter 3.0.5, the clause printed for it is `<3`, which rejects 3.0.5 (the
+source comments call the single-digit case "less clear"; the C06/C11 marker domain has no such literals). -/
+theorem counterexample_one_component_literal :
+    let E : Env := ⟨[("python_version", "3.0"), ("python_full_version", "3.0.5")], some []⟩
+    EnvPy E 3 0 5 ∧ evalItem "python_version" "<=" "3" false E = some true ∧
+    normalizePyPair "<=" "3" = .ok "<3" ∧
+    parseMarkerVersionConstraint "<3" = .ok (.single (.rng ⟨none, some (finalV [3]), false, false⟩)) ∧
+    (VC.single (.rng ⟨none, some (finalV [3]), false, false⟩)).allowsPlain (pyV 3 0 5) = false := by
+  refine ⟨⟨rfl, rfl⟩, by decide, by decide, ?_, by decide⟩
+  exact clause_of_parse "<3" ('<' :: relChars [3]) (by decide) (noSep_cons (sp (by simp)) (noSep_rel _)) (by simp) _
+    (parseSingle_lt 3 [] true)
+
+/-- **a conjunction without list operators** is printed clause by clause, in order (the expansion of `in` lists
+into alternatives does not interfere). -/
+theorem normalize_conj_items (pairs : List (String × String)) (items : List String) (alts : List (List String))
+    (hops : ∀ p ∈ pairs, RelOp p.1)
+    (hit : pairs.mapM (fun p => normalizePyPair p.1 p.2) = .ok items) :
+    normalizePyConj pairs alts = .ok (alts.map (· ++ items)) :=
+  normConj_items pairs items alts hops hit
+
+example : normalizePyConj [(">=", "3.8"), ("<", "3.10")] [[]] = .ok [[">=3.8", "<3.10"]] := by decide
+
+/-- **`get_python_constraint_from_marker` of one python item is exact**: the range admits exactly the
+interpreters on which the item holds. -/
+theorem pyConstraint_exact_leaf (E : Env) (X Y Z : Nat) (hE : EnvPy E X Y Z) (s : Single) (lit : List Nat)
+    (hv : s.value = relText lit) (hi : PyItem s.name lit) (hop : RelOp s.op) :
+    ∃ vc b, gpcLeaf (.single s) = .ok vc ∧ vc.allowsPlain (pyV X Y Z) = b ∧
+      evalItem s.name s.op s.value false E = some b :=
+  gpcLeaf_exact E X Y Z hE s lit hv hi hop
+
+/-- **…and of a single-marker-like on another variable it is the universal range** (the one-sided part for
+leaves: every interpreter is admitted). -/
+theorem pyConstraint_upper_foreign_leaf (l : Leaf) (h : isPyName l.name = false) (p : Version) :
+    gpcLeaf l = .ok VC.any ∧ VC.any.allowsPlain p = true :=
+  ⟨gpcLeaf_foreign l h, any_allowsPlain p⟩
+
+def C11_normalize_exact_full_statement : Prop :=
+  ∀ (E : Env) (X Y Z : Nat) (disj : List (List (String × String × List Nat))), EnvPy E X Y Z →
+    (∀ g ∈ disj, ∀ p ∈ g, RelOp p.2.1 ∧ PyItem p.1 p.2.2) →
+    ∃ txt, normalizePyMarkers (disj.map (fun g => g.map (fun p => (p.2.1, relText p.2.2)))) = .ok txt ∧
+      ClauseMeans txt X Y Z
+        (disj.any (fun g => g.all (fun p => evalItem p.1 p.2.1 (relText p.2.2) false E == some true)))
+
+def C11_pyConstraint_exact_full_statement : Prop :=
+  ∀ (E : Env) (X Y Z : Nat) (text : String) (m : M) (g : VC), EnvPy E X Y Z → parseMarker text = .ok m →
+    (∀ n ∈ M.vars m, n ∈ pyNames) → gpc m = .ok g → (∀ l ∈ M.leaves m, ∃ b, l.validate E = .ok b) →
+    M.validate E m = .ok (g.allowsPlain (pyV X Y Z))
+
+def C11_pyConstraint_upper_full_statement : Prop :=
+  ∀ (E : Env) (X Y Z : Nat) (text : String) (m : M) (g : VC), EnvPy E X Y Z → parseMarker text = .ok m →
+    gpc m = .ok g → M.validate E m = .ok true → g.allowsPlain (pyV X Y Z) = true
+
+/-! ## the same through poetry's own `parse_marker` and evaluation -/
+
+/-- C06's compaction agreement, as used here: the sub-markers `parse_marker` builds from a syntax tree
+(`_compact_markers`) satisfy the leaf invariant, and their disjunction has the reference value of the tree
+(leaf truth `ev` taken on the environment `E`). -/
+def CompactAgree (E : Env) (ev : Leaf → Bool) (G : Leaf → Prop) : Prop :=
+  ∀ syn subs b, compactSubMarkers syn = .ok subs → evalSyn E syn = some b →
+    M.GoodAll G subs ∧ M.semAny ev subs = b
+
+/-- a text with a reference value is read by `parse_marker` as a marker with that truth (C07's `union`
+soundness, proved; C06's compaction agreement as hypothesis) -/
+theorem parseMarker_sem {E : Env} {ev : Leaf → Bool} {G : Leaf → Prop} (S : LeafSpec ev G)
+    (hC : CompactAgree E ev G) (txt : String) (b : Bool) (m : M)
+    (hr : refEval E txt = some b) (hm : parseMarker txt = .ok m) : M.Good G m ∧ M.sem ev m = b := by
+  unfold refEval at hr
+  by_cases he : txt.isEmpty = true
+  · simp only [he, if_true, Option.some.injEq] at hr
+    have : txt = "" := by simpa [String.isEmpty_iff] using he
+    subst this
+    simp [parseMarker] at hm
+    subst hm; subst hr; simp
+  · simp only [he, if_false] at hr
+    cases hp : parseText txt with
+    | error e => simp [hp] at hr
+    | ok syn =>
+      simp only [hp] at hr
+      have h1 : (txt == "<empty>") = false := by
+        cases h : txt == "<empty>" with
+        | false => rfl
+        | true =>
+          have : txt = "<empty>" := by simpa using h
+          subst this
+          have : parseText "<empty>" = .error .syntax := rfl
+          rw [this] at hp; cases hp
+      have h2 : (txt == "*") = false := by
+        cases h : txt == "*" with
+        | false => rfl
+        | true =>
+          have : txt = "*" := by simpa using h
+          subst this
+          have : parseText "*" = .error .syntax := rfl
+          rw [this] at hp; cases hp
+      have he' : txt.isEmpty = false := by simpa using he
+      simp only [parseMarker, h1, he', h2, Bool.false_eq_true, if_false, Bool.or_false, hp, bind, Except.bind] at hm
+      split at hm
+      · cases hm
+      · rename_i subs hs
+        have hc := hC syn subs b hs hr
+        have := unionF_sound S hc.1 hm
+        exact ⟨this.1, by rw [this.2, hc.2]⟩
+
+/-- **`create_nested_marker` then poetry's own `parse_marker`**: the marker object holds on the environment
+of interpreter `X.Y.Z` exactly when the range admits `X.Y.Z`. -/
+theorem createNested_poetry_partial {E : Env} {ev : Leaf → Bool} {G : Leaf → Prop} (S : LeafSpec ev G)
+    (hC : CompactAgree E ev G) (c : VC) (hd : PyDomVC c = true) (X Y Z : Nat) (hE : EnvPy E X Y Z)
+    (txt : String) (m : M) (ht : createNestedMarker "python_version" c = .ok txt)
+    (hm : parseMarker txt = .ok m) : M.Good G m ∧ M.sem ev m = c.allowsPlain (pyV X Y Z) := by
+  obtain ⟨txt', ht', hr⟩ := createNested_exact E c hd X Y Z hE
+  rw [ht] at ht'; injection ht' with ht'; subst ht'
+  exact parseMarker_sem S hC txt _ m hr hm
+
+def C11_createNested_poetry_full_statement : Prop :=
+  ∀ (E : Env) (c : VC) (X Y Z : Nat) (txt : String) (m : M), PyDomVC c = true → EnvPy E X Y Z →
+    createNestedMarker "python_version" c = .ok txt → parseMarker txt = .ok m →
+    M.validate E m = .ok (c.allowsPlain (pyV X Y Z))
 
 end Poetry.C11
